@@ -155,13 +155,16 @@ func runC04(w *core.World, r *core.Report) {
 			for _, e := range core.EdgesWhere(bo, true) {
 				region = append(region, dominatedRegion(e.To())...)
 			}
-			got, _ := moverSet(region)
+			got, gotCalls := moverSet(region)
 			exp, known := want[k]
 			if !known {
 				r.Bad("R1", fmt.Sprintf("%s: case %q", core.QName(d), k), bo.Pos(), "navigation token not in the documented table")
 				continue
 			}
 			r.Check(setStr(got) == exp, "R1", fmt.Sprintf("%s: case %q", core.QName(d), k), bo.Pos(), "moves "+setStr(got), fmt.Sprintf("case %q performs %s, the table says %s", k, setStr(got), exp))
+			for _, e := range core.EdgesWhere(bo, true) {
+				casePassesMovers(w, r, d, fmt.Sprintf("case %q", k), e.To(), gotCalls, bo.Pos())
+			}
 		}
 		for k := range want {
 			if cases[k] == nil {
@@ -190,6 +193,21 @@ func runC04(w *core.World, r *core.Report) {
 			got, calls := moverSet(region)
 			okSet := setStr(got) == "{Down,Push}"
 			r.Check(okSet, "R1", core.QName(d)+": default case", lastCmp.Pos(), "moves "+setStr(got), "a named target performs "+setStr(got)+", the table says {Down,Push}")
+			for _, bo := range cases {
+				for _, e := range core.EdgesWhere(bo, false) {
+					hasCmp := false
+					for _, in := range e.To().Instrs {
+						for _, other := range cases {
+							if in == ssa.Instruction(other) {
+								hasCmp = true
+							}
+						}
+					}
+					if !hasCmp {
+						casePassesMovers(w, r, d, "default case", e.To(), calls, lastCmp.Pos())
+					}
+				}
+			}
 			if dc := calls["Down"]; dc != nil {
 				args := core.CallArgs(dc)
 				fromParam := false
@@ -565,4 +583,27 @@ func classifyStore(st *ssa.Store, field string) string {
 		}
 	}
 	return "other (" + v.String() + ")"
+}
+
+// casePassesMovers: every path from the entry block of a dispatcher case to a success return
+// passes each of the case's movers (a case that sometimes skips its move - or is diverted to
+// another case - does not apply the tabulated update).
+func casePassesMovers(w *core.World, r *core.Report, d *ssa.Function, label string, entry *ssa.BasicBlock, calls map[string]ssa.CallInstruction, pos token.Pos) {
+	isSucc := isSuccessReturnPred(d)
+	var names []string
+	for n := range calls {
+		names = append(names, n)
+	}
+	sort.Strings(names)
+	for _, n := range names {
+		c := calls[n]
+		if c.Parent() != d {
+			continue // mover inside a helper: the helper call is the site
+		}
+		cut := core.NewCut().AddInstr(c.(ssa.Instruction))
+		// error edges of earlier movers of the same case lead to error returns, which isSucc excludes
+		in, path := core.Reach(core.Point{B: entry, I: 0}, isSucc, cut)
+		r.Check(in == nil, "R1", fmt.Sprintf("%s: %s always performs %s", core.QName(d), label, n), pos, "every success path passes it",
+			fmt.Sprintf("%s can succeed without %s (the move is skipped or diverted on some path): the position differs from the documented table: %s", label, n, w.PathString(path)))
+	}
 }
